@@ -361,6 +361,39 @@ def _debug_only_blocks(ctx, b):
         zero = [tb for val, tb in t["targets"] if val == 0]
         dbg, rel = t["otherwise"], (zero[0] if zero else None)
         regions.append((bb, dbg, rel, in_macro(t["span"], "debug_assert", "debug_assert_eq", "debug_assert_ne")))
+    # `let x = cfg!(debug_assertions).then(|| ..); if let Some(v) = x { .. }`: the Some arm exists only with debug assertions
+    for bb in b.reachable():
+        t = b.term(bb)
+        if t["k"] != "switch":
+            continue
+        d = b.source_def(t["discr"])
+        if d is None or d[1] != "assign" or d[2]["rv"]["k"] != "discr" or d[2]["rv"]["place"]["proj"]:
+            continue
+        x = d[2]["rv"]["place"]["local"]
+        dx = b.unique_def(x)
+        hops = 0
+        while dx is not None and dx[1] == "assign" and dx[2]["rv"]["k"] == "use" and dx[2]["rv"]["op"]["k"] in ("copy", "move") \
+                and not dx[2]["rv"]["op"]["place"]["proj"] and hops < 4:
+            dx = b.unique_def(dx[2]["rv"]["op"]["place"]["local"])
+            hops += 1
+        if dx is None or dx[1] != "call":
+            continue
+        c = ctx.call_at(b, dx[0].bb)
+        if c is None or not (c.name or "").startswith("core::bool::") or c.method not in ("then", "then_some") or not c.args:
+            continue
+        a0 = c.args[0]
+        is_cfg = False
+        sd = b.source_def(a0)
+        if a0["k"] == "const" and (in_macro(c.t["span"], "cfg") or (a0.get("span") and in_macro(a0["span"], "cfg"))):
+            is_cfg = True
+        if sd is not None and sd[1] == "assign" and sd[2]["rv"]["k"] == "use" and sd[2]["rv"]["op"]["k"] == "const" and in_macro(sd[2]["span"], "cfg"):
+            is_cfg = True
+        if not is_cfg:
+            continue
+        some = [tb for v, tb in t["targets"] if v == 1]
+        none = [tb for v, tb in t["targets"] if v == 0] or [t["otherwise"]]
+        if some:
+            regions.append((bb, some[0], none[0] if none[0] != some[0] else None, False))
     return regions
 
 
